@@ -8,6 +8,7 @@
 (*  C12  stop_lost_task (stop reported success while an accepted task never     *)
 (*       ran), accepted_after_stop                                              *)
 (*  C15  no_overlap (sleeping tasks of one loop did not overlap)                *)
+(*       loop_stalled (a task parked in a hooked call kept the loop's other tasks from running)   *)
 (* Every record carries `t` (microseconds, one monotonic clock).                *)
 EXTENDS Naturals, Integers, Sequences, FiniteSets, TLC, Json, IOUtils
 
@@ -61,6 +62,14 @@ Step ==
             /\ (bad => Viol("no_overlap", <<sleepB, ntasks>>))
             /\ nviol' = nviol + Count(bad) /\ sleepE' = sleepE + 1
             /\ UNCHANGED <<scen, ntasks, accepted, ran, ranOk, runEnd, stored, twice, stopOkAt, hung, stopped, sleepB>>
+       [] ev = "mid" ->
+            \* (body "duplex") recorded by a thread outside the loop half-way through the parked reader's wait (500 ms in):
+            \* every task of the loop must have entered its sleep (they do within 50 ms) - otherwise the loop thread
+            \* is not running tasks: it is parked in the kernel by the reader's call
+            LET bad == sleepB < ntasks IN
+            /\ (bad => Viol("loop_stalled", <<sleepB, ntasks>>))
+            /\ nviol' = nviol + Count(bad)
+            /\ UNCHANGED <<scen, ntasks, accepted, ran, ranOk, runEnd, stored, twice, stopOkAt, hung, stopped, sleepB, sleepE>>
        [] ev = "submit_hang" ->
             /\ Viol("submit_hang", r.th) /\ nviol' = nviol + 1 /\ hung' = TRUE
             /\ UNCHANGED <<scen, ntasks, accepted, ran, ranOk, runEnd, stored, twice, stopOkAt, stopped, sleepB, sleepE>>
